@@ -653,20 +653,36 @@ Proof.
     repeat split; try discriminate; lia.
 Qed.
 
-Lemma parse_client_hello_exts_top : top 8 13 5 3 parse_client_hello_exts.
+(* an extension loop followed by the duplicate test: one more step / cell per 4 input bytes *)
+Lemma ext_list_nodup_top {B} (h : Z -> list Z -> M B) ch kh cah kah Cs Ca :
+  0 <= ch -> 0 <= kh -> 0 <= cah -> 0 <= kah ->
+  (forall t, top ch kh cah kah (h t)) ->
+  ch <= Cs -> cah + 1 <= Ca -> ch * 4 + (kh + 3) + 1 <= Cs * 4 -> (cah + 1) * 4 + kah + 1 <= Ca * 4 ->
+  top (Cs + 1) (kh + 4) (Ca + 1) (kah + 1)
+      (fun bs => exts <~ parse_ext_list_with h bs ;; reject_duplicates exts).
 Proof.
-  intros bs Hb. unfold parse_client_hello_exts. pose proof (zlen_nonneg bs).
-  destruct (parse_ext_list_with_top h_client_hello 3 9 2 2 7 4 ltac:(lia) ltac:(lia) ltac:(lia) ltac:(lia)
-              h_client_hello_top ltac:(lia) ltac:(lia) ltac:(lia) ltac:(lia) bs Hb) as (P1 & P2 & P3).
-  pose proof (loop_all_count (ext_elem h_client_hello) 4 3 (9 + 3) (2 + 1) 2 bs) as C.
+  intros H1 H2 H3 H4 Hh H5 H6 H7 H8 bs Hb. pose proof (zlen_nonneg bs).
+  destruct (parse_ext_list_with_top h ch kh cah kah Cs Ca H1 H2 H3 H4 Hh H5 H6 H7 H8 bs Hb) as (P1 & P2 & P3).
+  pose proof (loop_all_count (ext_elem h) 4 ch (kh + 3) (cah + 1) kah bs) as C.
   unfold parse_ext_list_with in *. unfold m_out, m_steps, m_alloc in *.
-  destruct (loop_all (ext_elem h_client_hello) bs) as [[[exts|e] s] a]; cbn [fst snd] in *.
+  destruct (loop_all (ext_elem h) bs) as [[[exts|e] s] a]; cbn [fst snd] in *.
   - rewrite mbind_ok.
-    specialize (C exts ltac:(lia) (ext_elem_wf h_client_hello 3 9 2 2 ltac:(lia) ltac:(lia) ltac:(lia) ltac:(lia)
-                                     h_client_hello_top) Hb eq_refl).
+    specialize (C exts ltac:(lia) (ext_elem_wf h ch kh cah kah H1 H2 H3 H4 Hh) Hb eq_refl).
     destruct (reject_duplicates_cost exts) as (R1 & R2 & R3). unfold m_out, m_steps, m_alloc in *.
     rewrite R2, R3. cbn [fst snd]. repeat split; try assumption; lia.
   - rewrite mbind_err. cbn [fst snd]. repeat split; try lia. congruence.
+Qed.
+
+Lemma parse_client_hello_exts_top : top 8 13 5 3 parse_client_hello_exts.
+Proof.
+  unfold parse_client_hello_exts.
+  apply (ext_list_nodup_top h_client_hello 3 9 2 2 7 4); try lia. exact h_client_hello_top.
+Qed.
+
+Lemma parse_ext_list_nodup_top : top 2 4 3 1 parse_ext_list_nodup.
+Proof.
+  unfold parse_ext_list_nodup, parse_ext_list.
+  apply (ext_list_nodup_top h_raw 0 0 0 0 1 2); try lia. exact h_raw_top.
 Qed.
 
 (* ---- certificate lists ------------------------------------------------------------------ *)
@@ -1203,6 +1219,7 @@ Qed.
 
 Lemma parser_work_linear_all :
   linear_work parse_ext_list 1 4 /\
+  linear_work parse_ext_list_nodup 2 4 /\
   linear_work parse_client_hello_exts 8 13 /\
   linear_work parse_sni 2 5 /\
   linear_work parse_alpn 3 4 /\
@@ -1223,6 +1240,7 @@ Lemma parser_work_linear_all :
      linear_work (parse_ext_list_with h) Cs (kh + 4)).
 Proof.
   split; [exact (proj1 (top_linear _ _ _ _ _ parse_ext_list_top))|].
+  split; [exact (proj1 (top_linear _ _ _ _ _ parse_ext_list_nodup_top))|].
   split; [exact (proj1 (top_linear _ _ _ _ _ parse_client_hello_exts_top))|].
   split; [exact (proj1 (top_linear _ _ _ _ _ parse_sni_top))|].
   split; [exact (proj1 (top_linear _ _ _ _ _ parse_alpn_top))|].
@@ -1244,6 +1262,7 @@ Qed.
 
 Lemma alloc_bounded_all :
   linear_alloc parse_ext_list 2 1 /\
+  linear_alloc parse_ext_list_nodup 3 1 /\
   linear_alloc parse_client_hello_exts 5 3 /\
   linear_alloc parse_sni 2 1 /\
   linear_alloc parse_alpn 2 1 /\
@@ -1276,6 +1295,7 @@ Lemma alloc_bounded_all :
            zlen out = expected /\ 0 <= expected <= 16777215))).
 Proof.
   split; [exact (proj2 (top_linear _ _ _ _ _ parse_ext_list_top))|].
+  split; [exact (proj2 (top_linear _ _ _ _ _ parse_ext_list_nodup_top))|].
   split; [exact (proj2 (top_linear _ _ _ _ _ parse_client_hello_exts_top))|].
   split; [exact (proj2 (top_linear _ _ _ _ _ parse_sni_top))|].
   split; [exact (proj2 (top_linear _ _ _ _ _ parse_alpn_top))|].
@@ -1472,3 +1492,10 @@ Proof. intros c. discriminate. Qed.
 Lemma client_hello_duplicate_example :
   parse_client_hello_exts [0;0;0;0; 171;171;0;0; 0;0;0;0] = (Err DecodeError, 16, 18).
 Proof. vm_compute. reflexivity. Qed.
+
+(* EncryptedExtensions-style list: two extensions of the same unknown type are parsed, then rejected *)
+Lemma ext_list_nodup_example :
+  parse_ext_list_nodup [171;171;0;1;7; 171;172;0;0] = (Ok [(43947, [7]); (43948, [])], 11, 13) /\
+  parse_ext_list_nodup [171;171;0;1;7; 171;171;0;0] = (Err DecodeError, 11, 13) /\
+  parse_ext_list [171;171;0;1;7; 171;171;0;0] = (Ok [(43947, [7]); (43947, [])], 9, 11).
+Proof. repeat split; vm_compute; reflexivity. Qed.
